@@ -32,6 +32,7 @@ type Gen struct {
 	repo      string
 	files     []*ContractFile
 	contracts map[string]*Contract
+	dupContracts []string // functions with two unnamed contracts (the later would silently win at call sites)
 	specs     map[string]*SpecFn
 	axioms    []*Axiom
 	lemmas    []*Lemma
@@ -92,6 +93,9 @@ func (g *Gen) LoadContracts(specsDir string) error {
 		}
 		g.addFile(cf)
 	}
+	if len(g.dupContracts) > 0 {
+		return fmt.Errorf("duplicate contracts (use `func F as VARIANT` for a second specification): %s", strings.Join(g.dupContracts, "; "))
+	}
 	return nil
 }
 
@@ -99,6 +103,9 @@ func (g *Gen) addFile(cf *ContractFile) {
 	g.files = append(g.files, cf)
 	for _, c := range cf.Contracts {
 		if c.Variant == "" {
+			if old, dup := g.contracts[c.Pkg+"."+c.Name]; dup && old != c {
+				g.dupContracts = append(g.dupContracts, fmt.Sprintf("%s.%s (%s:%d and %s:%d)", c.Pkg, c.Name, old.File, old.Line, c.File, c.Line))
+			}
 			g.contracts[c.Pkg+"."+c.Name] = c
 		}
 	}
